@@ -189,13 +189,12 @@ class Ctx:
 
     def behaviours(self, res, path):
         """Writes the @@B histories printed by a generation run to a file, one JSON array per line."""
-        n = 0
+        # sorted: TLC's workers print in no particular order, and the harness samples every n-th line by position
+        lines = sorted(set(p[4:] for p in res["prints"] if p.startswith("@@B ")))
         with open(path, "w") as f:
-            for p in res["prints"]:
-                if p.startswith("@@B "):
-                    f.write(p[4:] + "\n")
-                    n += 1
-        return n
+            for ln in lines:
+                f.write(ln + "\n")
+        return len(lines)
 
     def validate(self, module, tracefile, cfg=None, timeout=3600, subdir=None, expect_events=None, extra_files=None, heap=None):
         """Trace validation: returns list of deviation dicts.  The trace must be fully consumed."""
